@@ -556,7 +556,7 @@ pub fn gen(r: &mut Rng, i: usize) -> Vec<Vec<u128>> {
                     4 => push_op(&mut v, 20, &[0, 11, local]),
                     5 => push_op(&mut v, 20, &[0, 12, local]),
                     6 => push_op(&mut v, 20, &[0, 9, local, *r.pick(&[0u128, 1, 4294967295])]),
-                    7 => push_op(&mut v, 20, &[0, 4, rp, 1, 1, rp]),
+                    7 if !peer_clientfin => push_op(&mut v, 20, &[0, 4, rp, 1, 1, rp]),
                     8 => push_op(&mut v, 20, &[0, 8, local, 1, 1, 0, 0, 0]),
                     9 => push_op(&mut v, 20, &[0, 8, local, 1, 1, 0, 0, 2, rp, rp]),
                     10 => push_op(&mut v, 20, &[0, 1]),
